@@ -38,6 +38,7 @@ From QV Require Import Base.Res Base.Octets Model.MsgWriter Model.ZoneTree Model
 From QV Require Model.Server Spec.NameRepr.
 From QV Require Import Spec.ZoneLookupS Spec.MsgWriterAbsS Proofs.MsgWriterDecP Proofs.ComposeTraceP Proofs.ComposeTcP Proofs.ComposeGlueP Proofs.ComposeAbsP Proofs.ComposeEndP.
 From QV Require Spec.ResolveS Spec.ResolveRepr.
+From QV Require Import Spec.RespSigS Proofs.RespSigP.
 
 Theorem c04_response_within_limit : forall negttl buf tcp id rd qname qtype qclass edns limit z len b,
   respond_w negttl buf tcp id rd qname qtype qclass edns limit z = Some (len, b) ->
@@ -455,6 +456,94 @@ Example c04_glue_example :
   end.
 Proof. vm_compute. split; [reflexivity|exact I]. Qed.
 
+(* ---------------------------------------------------------------- responses that carry a TSIG (suite `signed`)
+   There is no model of TSIG-bearing response octets: for correctly signed requests all clauses are decided by the
+   extracted relation [pair_check_signed] (Spec/RespSigS.v) on the real server's two responses.  It is [pair_check]
+   with the trailing TSIG record of each additional section set aside in the omission clause; the theorems below
+   say that it is not a second, unrelated specification (it IS pair_check on responses without a TSIG record) and
+   what its verdict means. *)
+Theorem c04_signed_oracle_conservative : forall their server u t,
+  no_tsig u -> no_tsig t ->
+  pair_check_signed their server u t = SPair (pair_check their server u t).
+Proof. exact pair_check_signed_plain. Qed.
+
+Theorem c04_signed_oracle_sizes_and_identity : forall their server u t mu mt,
+  decode_msg u = Some mu -> decode_msg t = Some mt ->
+  pair_check_signed their server u t = SPair PairOk ->
+  length u <= udp_limit_of mu their server /\ length t <= N.to_nat 65535 /\ tc_bit mt = false /\
+  (length t <= udp_limit_of mu their server -> u = t).
+Proof. exact signed_sizes_and_identity. Qed.
+
+Theorem c04_signed_oracle_tc_shape : forall their server u t mu mt,
+  decode_msg u = Some mu -> decode_msg t = Some mt ->
+  pair_check_signed their server u t = SPair PairOk -> tc_bit mu = true ->
+  m_an mu = [] /\ m_ns mu = [] /\ forallb is_pseudo (m_ar mu) = true /\ tc_bit mt = false /\
+  udp_limit_of mu their server < length t.
+Proof. exact signed_tc_shape. Qed.
+
+Theorem c04_signed_oracle_omission : forall their server u t mu mt,
+  decode_msg u = Some mu -> decode_msg t = Some mt ->
+  pair_check_signed their server u t = SPair PairOk ->
+  udp_limit_of mu their server < length t -> tc_bit mu = false ->
+  m_id mu = m_id mt /\ m_flags2 mu = m_flags2 mt /\ m_flags3 mu = m_flags3 mt /\
+  rrs_eq (m_an mu) (m_an mt) = true /\ rrs_eq (m_ns mu) (m_ns mt) = true /\
+  exists au su at_ st left_out,
+    split_tsig (m_ar mu) = (au, su) /\ split_tsig (m_ar mt) = (at_, st) /\
+    tsig_eq_mod_rdata su st = true /\
+    omitted au at_ = Some left_out /\
+    forallb (fun r => negb (is_pseudo r) && negb (is_glue_for (m_ns mt) r)) left_out = true.
+Proof. exact signed_omission. Qed.
+
+(* tie to C02's oracle: in a response accepted by wf_response (at most one TSIG record, and only as the last record) the
+   additional-section body that remains after setting the trailing TSIG record aside contains no TSIG record: for a pair
+   of well-formed responses the omission clause compares exactly the non-TSIG records *)
+Theorem c04_signed_oracle_tsig_set_aside : forall b m body ts,
+  wf_response b = true -> decode_msg b = Some m -> split_tsig (m_ar m) = (body, ts) ->
+  forallb (fun r => negb (is_tsig r)) body = true.
+Proof.
+  intros b m body ts Hwf Hd. unfold wf_response in Hwf. rewrite Hd in Hwf. exact (split_tsig_complete m body ts Hwf).
+Qed.
+
+(* Non-vacuity, on hand-written octets.  Question b.a. ; key k. (hmac-sha256, 32-octet MAC [m]). *)
+Definition sx_hdr (f2 an ar : N) : list N := [0;7;f2;0; 0;1; 0;an; 0;0; 0;ar]%N.
+Definition sx_q (ty : N) : list N := [1;98;1;97;0; 0;ty; 0;1]%N.
+Definition sx_txt (c : N) : list N := ([192;12; 0;16; 0;1; 0;0;1;44; 0;201] ++ (200 :: repeat c 200))%N.
+Definition sx_tsig (m : N) : list N :=
+  ([1;107;0; 0;250; 0;255; 0;0;0;0; 0;61] ++ [11;104;109;97;99;45;115;104;97;50;53;54;0] ++
+   [0;0;100;0;0;0; 1;44; 0;32] ++ repeat m 32 ++ [0;7; 0;0; 0;0])%N.
+Definition sx_mx : list N := [192;12; 0;15; 0;1; 0;0;1;44; 0;6; 0;10; 1;109; 192;14]%N.
+Definition sx_a (i : N) : list N := [192;35; 0;1; 0;1; 0;0;0;60; 0;4; 10;0;0;i]%N.
+
+(* (a) the complete signed answer (3 x 201 octets of TXT + TSIG = 734 octets) does not fit 512: over UDP TC, no records,
+       the TSIG RR (another MAC) kept; both accepted by wf_response *)
+Example c04_signed_tc_example :
+  let u := sx_hdr 134 0 1 ++ sx_q 16 ++ sx_tsig 1 in
+  let t := sx_hdr 132 3 1 ++ sx_q 16 ++ sx_txt 120 ++ sx_txt 121 ++ sx_txt 122 ++ sx_tsig 2 in
+  length u = 95 /\ length t = 734 /\
+  pair_check_signed 0 1232 u t = SPair PairOk /\ wf_response u = true /\ wf_response t = true /\
+  (* ... and with answer records next to TC (seeded defect C04-B) it is rejected *)
+  pair_check_signed 0 1232 (sx_hdr 134 1 0 ++ sx_q 16 ++ sx_txt 120) t = SPair PTcWithRecords.
+Proof. vm_compute. repeat split. Qed.
+
+(* (b) MX answer with 32 address records of the target + TSIG (625 octets): over UDP only 10 of them, TC clear, TSIG with
+       another MAC.  The signed relation accepts (only optional additional records are missing); the plain relation
+       cannot (it would count the TSIG RDATA as a difference): this is why the variant exists.  A response that also
+       drops the TSIG record is rejected. *)
+Example c04_signed_omission_example :
+  let addrs := fun n => flat_map sx_a (map N.of_nat (seq 0 n)) in
+  let u := sx_hdr 132 1 11 ++ sx_q 15 ++ sx_mx ++ addrs 10 ++ sx_tsig 1 in
+  let t := sx_hdr 132 1 33 ++ sx_q 15 ++ sx_mx ++ addrs 32 ++ sx_tsig 2 in
+  length t = 625 /\
+  pair_check_signed 0 1232 u t = SPair PairOk /\ pair_check 0 1232 u t = PNotOmission /\
+  wf_response u = true /\ wf_response t = true /\
+  pair_check_signed 0 1232 (sx_hdr 132 1 10 ++ sx_q 15 ++ sx_mx ++ addrs 10) t = STsigMismatch.
+Proof. vm_compute. repeat split. Qed.
+
+(* (c) the hypothesis of c04_signed_oracle_conservative holds for the unsigned pair of (a) *)
+Example c04_signed_conservative_example :
+  no_tsig (sx_hdr 134 0 0 ++ sx_q 16) /\ no_tsig (sx_hdr 132 3 0 ++ sx_q 16 ++ sx_txt 120 ++ sx_txt 121 ++ sx_txt 122).
+Proof. vm_compute. split; reflexivity. Qed.
+
 Print Assumptions c04_clause_iv.
 Print Assumptions c04_clause_iv_two_runs.
 Print Assumptions c04_endings_on_the_octets.
@@ -514,3 +603,8 @@ Qed.
 
 Print Assumptions c04_tsig_within_limit_partial.
 Print Assumptions c04_tsig_or_tc.
+Print Assumptions c04_signed_oracle_conservative.
+Print Assumptions c04_signed_oracle_sizes_and_identity.
+Print Assumptions c04_signed_oracle_tc_shape.
+Print Assumptions c04_signed_oracle_omission.
+Print Assumptions c04_signed_oracle_tsig_set_aside.
